@@ -50,6 +50,11 @@ structure Shard where
   walOpen : Nat
   walCount : Nat
   walOrphan : Bool
+  /-- segment labels that have existed during this process lifetime (per-label caches) -/
+  everSeg : List Nat := []
+  /-- a compaction output reused a label of this lifetime: per-label caches may be stale
+  (finding C05-stale-cache-on-segment-id-reuse); reads are not compared from then on -/
+  tainted : Bool := false
   -- durable
   segs : List (Nat × List Ev)
   index : List (Nat × List Nat)
@@ -120,7 +125,8 @@ def flushStep (s : Shard) : Shard :=
   | j :: rest =>
     if j.evs.isEmpty then { s with jobs := rest }
     else match j.step with
-      | 0 => { s with segs := s.segs ++ [(j.seg, j.evs)], jobs := { j with step := 1 } :: rest }
+      | 0 => { s with segs := s.segs ++ [(j.seg, j.evs)], everSeg := s.everSeg ++ [j.seg],
+                      jobs := { j with step := 1 } :: rest }
       | 1 => { s with index := s.index ++ [(j.seg, typesOf j.evs)], jobs := { j with step := 2 } :: rest }
       | 2 => { s with live := if s.live.contains j.seg then s.live else s.live ++ [j.seg],
                       jobs := { j with step := 3 } :: rest }
@@ -195,6 +201,7 @@ def restart (s : Shard) : Shard :=
   let wal := walEnsure s.wal openId
   let openLen := ((wal.filter (·.1 == openId)).flatMap (·.2)).length
   { s with mem := replay, passives := [], jobs := [], live := dirs, nextL0 := nextL0,
+           everSeg := dirs, tainted := false,
            walOpen := openId, walCount := openLen, walOrphan := false, wal := wal }
 
 /-- Clean shutdown as the harness performs it: `flush_all` (manual flush, waits), then WAL
